@@ -414,7 +414,14 @@ class Interp:
                         if len(tags) > 1:
                             raise AxisMismatch(vals[0], vals[1], e)
                     if any(v.nan for v in vals):
-                        return OPQ      # numba/python min/max with NaN is order dependent: not decided
+                        # (S15) python's and numba's min / max keep the FIRST operand unless a later one compares smaller / greater; comparisons with NaN are false
+                        res_ = vals[0]
+                        for v_ in vals[1:]:
+                            if not res_.nan and not v_.nan and ((v_.rank < res_.rank) if fn in ('min', 'np.minimum') else (v_.rank > res_.rank)):
+                                res_ = v_
+                        if fn in ('np.minimum', 'np.maximum'):
+                            return next(v_ for v_ in vals if v_.nan)      # the numpy ufuncs propagate NaN
+                        return res_
                     key = (lambda v: v.rank)
                     return (min if fn in ('min', 'np.minimum') else max)(vals, key=key)
                 if all(isinstance(v, (int, float)) for v in vals):
